@@ -39,6 +39,18 @@ pub fn install() {
                 "<non-string>".to_string()
             };
             let t = std::thread::current();
+            if let Some(n) = t.name() {
+                if n.starts_with("fsm_") {
+                    match dead().lock() {
+                        Ok(mut g) => {
+                            g.insert(n.to_string());
+                        }
+                        Err(p) => {
+                            p.into_inner().insert(n.to_string());
+                        }
+                    }
+                }
+            }
             let mut g = match store().lock() {
                 Ok(g) => g,
                 Err(p) => p.into_inner(),
@@ -53,6 +65,19 @@ pub fn install() {
             }
         }));
     });
+}
+
+fn dead() -> &'static Mutex<std::collections::HashSet<String>> {
+    static D: OnceLock<Mutex<std::collections::HashSet<String>>> = OnceLock::new();
+    D.get_or_init(|| Mutex::new(std::collections::HashSet::new()))
+}
+
+/// true if a thread with that name has panicked in this process (names of session threads are unique: fsm_<session id>)
+pub fn thread_panicked(name: &str) -> bool {
+    match dead().lock() {
+        Ok(g) => g.contains(name),
+        Err(p) => p.into_inner().contains(name),
+    }
 }
 
 pub fn last_panic_location() -> Option<String> {
